@@ -22,7 +22,7 @@ func init() {
 	h.Register(&h.Prop{
 		ID:    "C06",
 		Level: "exploration",
-		Rule: "case = (seeded corpus with single-valued group/numeric fields spread over 1..6 single-fraction shards, query, histogram interval, 1..3 aggregations); " +
+		Rule: "case = (seeded corpus with single-valued group/numeric fields - every fifth corpus with nothing but values beyond the int64 range, all of one sign - spread over 1..6 single-fraction shards, query, histogram interval, 1..3 aggregations); " +
 			"each case checks the proxy-merged result, the rendered buckets and 6 seeded merge trees of the per-fraction partial results; " +
 			"non-trivial = >=2 matching documents and >=2 bins in some aggregation; distinct = (functions, grouping, interval class, shards, forms, hist)",
 		Assumptions: []string{
@@ -109,6 +109,9 @@ func runC06(w *h.W, batch int) {
 		// every fifth corpus: numeric fields hold nothing but values beyond the int64 range (no extra draws from cr for the others)
 		opt.HugeNums = (batch*nCorp+ci)%5 == 3
 		corp := gen.MakeCorpus(cr, opt)
+		if opt.HugeNums {
+			w.Count("corpora_with_only_values_beyond_int64", 1)
+		}
 		shards := cr.Range(1, 6)
 		cl, err := sdb.OpenCluster(w.Sub(fmt.Sprintf("c%d", ci)), shards, 1, sdb.Opt{Mapping: StoreMapping()})
 		if err != nil {
